@@ -203,8 +203,9 @@ def offset_text(hours, minutes, mode):
 def mode_after_operator(option, env_value):
     """Calendar spelling in force after a DateTimeOperator / CLI start:
     option, else environment variable, else gregorian."""
-    if option:
-        return option
-    if env_value:
-        return env_value
+    for value in (option, env_value):
+        if value:
+            # names are looked up case-insensitively: 'Gregorian' selects
+            # gregorian (reported here under the plain spelling)
+            return value.lower() if value.lower() in BASE else value
     return "gregorian"
